@@ -15,6 +15,7 @@
 #include <map>
 #include <sstream>
 #include <string>
+#include <ctime>
 #include <typeinfo>
 #include <vector>
 #include <fcntl.h>
@@ -160,6 +161,9 @@ inline int run(int argc, char** argv, ScenFn fn) {
     // a run that has already produced this many crashed / hung scenarios stops: every one of them is a candidate the check will
     // confirm alone, and a library that hangs on thousands of scenarios must not turn a violation into a time-out of the check
     long max_crashes = args.num("max-crashes", 30);
+    // ... and a run that has used up its wall-clock budget stops as well (the rest of the scenarios is reported as skipped): on the
+    // unchanged tree the largest pushes take a few minutes
+    long max_seconds = args.num("max-seconds", 1500); time_t t_start = time(0); long skipped = 0;
     std::vector<std::string> lines; { std::ifstream f(in.c_str()); std::string l; while (std::getline(f, l)) if (!l.empty()) lines.push_back(l); }
     { FILE* t = fopen(outp.c_str(), "w"); if (!t) { perror("out"); return 3; } fclose(t); }
     FILE* crashes = fopen((outp + ".crashes").c_str(), "w");
@@ -167,6 +171,7 @@ inline int run(int argc, char** argv, ScenFn fn) {
     long i = 0, total_exec = 0, total_ev = 0, ncrash = 0;
     std::string errfile = outp + ".stderr";
     while (i < (long)lines.size() && ncrash < max_crashes) {
+        if (time(0) - t_start > max_seconds) { skipped = (long)lines.size() - i; break; }
         long hi = std::min<long>(i + batch, (long)lines.size());
         progress[0] = i; progress[1] = 0; progress[2] = 0;
         fflush(0);
@@ -205,7 +210,8 @@ inline int run(int argc, char** argv, ScenFn fn) {
         i = at + 1;
     }
     fclose(crashes); if (!getenv("VH_KEEP_STDERR")) unlink(errfile.c_str());
-    printf("{\"scenarios\":%zu,\"crashed\":%ld}\n", lines.size(), ncrash);
+    if (ncrash >= max_crashes) skipped = (long)lines.size() - i;
+    printf("{\"scenarios\":%zu,\"crashed\":%ld,\"skipped\":%ld}\n", lines.size(), ncrash, skipped);
     return 0;
 }
 
